@@ -12,7 +12,6 @@ claimed = subprocess.run([V + "/bin/mltlint", "-list"], capture_output=True, tex
 ENV = "GOFLAGS=-mod=mod GOPROXY=off GOSUMDB=off GOTOOLCHAIN=local GOWORK=off"
 
 NA = {
- "C10": "exact arithmetic of Add/Lsh/Rsh/Mul/Div/Nand/Ltu for all operand values and widths is a numerical result over unbounded byte loops and big.Int round trips; no structural clause short of evaluating the arithmetic (the one structural part, one evaluator per operator, is decided under C09)",
  "C11": "each gadget's meaning is the value of a NAND/shift/compare network for all widths and operands; deciding it needs evaluation or a solver, which is another technique family",
 }
 
@@ -45,6 +44,9 @@ T = {
  "C09": ("traversal rules over the sealed IR (origin dataflow, rebuild homomorphism, case bodies followed into extracted helpers), concrete interprocedural CFG walk of the Binary/Less cases over all combinations of constant operands, changed flags and comparison outcome, operator-to-evaluator agreement by concrete walk of binaryEvalFunc per operator (switch, if chain or static table), byte-slice ownership in exprtransform/expreval",
          "constFold folds every child, rebuilds nodes with their own operator/key/width, evaluates exactly when both operands are constants (no further condition), selects the right branch of a constant comparison and re-widths it, passes operands in order, ends with PurgeWidthGadgets, and never writes through the bytes of the constants it folds; value preservation itself needs C10/C11 and is not decided",
          "trusts go/ssa", "§4 C09"),
+ "C10": ("concrete walks (E7+ with a byte-buffer model) of the expreval operators for which a finite argument exists: setWidth (copies only: distinguishable bytes), Ltu (comparisons only: every ordering), Nand (bitwise only: per-bit universe), Add (digit step of a radix-256 ripple-carry adder over its finite domain: boundary digits quick, all 2^17 cases thorough)",
+         "zero extension / truncation to the operation width, unsigned comparison, NAND and addition modulo 2^(8w) are decided (addition by verifying the digit step exhaustively and relying on the loop treating every digit alike). Lsh, Rsh, Mul, Div, division by zero and the big.Int conversions are numerical and NOT decided; that lessEval selects the branch Ltu names is C09.allconst",
+         "trusts go/ssa and the walker's byte-buffer model", "§4 C10"),
  "C12": ("decision table of dropUselessWidthGadget by CFG walk over the 13 weak orderings of (context, gadget, argument) widths against gadget >= min(arg, w); setWidth walked per node type; purgeWidthGadgetsKeepWidth walked over gadget chains; WidthGadgetArg walked over the 16 shape combinations; context-width agreement of every prune call site",
          "the width-gadget decision function is decided exhaustively; pruning contexts are the consuming widths; addresses are never pruned in a narrowing context; setWidth re-makes only Const and narrowed RegLoad",
          "trusts go/ssa and the documented width semantics of pkg/expr", "§4 C12"),
@@ -66,7 +68,7 @@ T = {
  "C18": ("SSA pattern + dominance rules on RegMap.Store/Load; concrete walk of State.Apply per effect kind and address-is-constant outcome (a walk returning false passes no store)",
          "stored/loaded register values pass through SetWidth with the method's own width, miss returns absent, a refused memory effect is refused before any state change, effect fields are forwarded from the same node",
          "trusts go/ssa and that exprtransform.SetWidth implements zero-extension/truncation (C12)", "§4 C18"),
- "C19": ("interprocedural data/control dependence of every ambiguity decision on bytes and mask of both patterns; bit-parallel argument for the pair predicate (bytes touched bitwise only + walk over all 1-/2-byte patterns on a 2-/1-bit universe); ordering-complete walks of byteLT/byteEQ; decision table of Validate; guard and search-predicate rules of matchInstruction; comparator/cut/adjacency rules of group and newMaskGroup",
+ "C19": ("interprocedural data/control dependence of every ambiguity decision on bytes and mask of both patterns, and no decision between groups by a lookup of one pattern among the others; bit-parallel argument for the pair predicate (bytes touched bitwise only + walk over all 1-/2-byte patterns on a 2-/1-bit universe); ordering-complete walks of byteLT/byteEQ; decision table of Validate; guard and search-predicate rules of matchInstruction; comparator/cut/adjacency rules of group and newMaskGroup",
          "structural necessary conditions of unambiguous, exact matching: a conflict between two patterns is decided from both byte strings and both masks by the exact predicate (agree on every bit both masks select, over the shorter length), every pattern of every pair of groups is compared, equal masks are grouped and equal masked bytes in a group rejected, a match is reported only under equality of the masked prefix and searched with a lower-bound predicate in a verified total order, every group is tried, malformed patterns are rejected. That these pieces compose to the property for every pattern set (sorting, binary search by the library) is NOT decided",
          "trusts go/ssa, sort.Slice/sort.Search", "§4 C19"),
  "C20": ("decision tables by CFG walk over the ELF type enum (5 values); MachineCode walked over a one-section file for the 16 section-attribute combinations and Memory over a one-segment file for 7 (loadable, file size, memory size) combinations; deep-site provenance / guard rules for the blocks built by Memory() and MachineCode(); concrete interprocedural walks of newMemory (10 block lists), Block.Address (7 addresses) and Memory.Address (28 addresses over three blocks, sort.Search followed) on a concrete block list; error propagation",
